@@ -28,7 +28,7 @@ func init() {
 		if err != nil {
 			return nil, err
 		}
-		return bt, r.ethCall(ctx, r.callerFor(op), AssetsPrecompile, data, bt)
+		return bt, r.gatewayCall(ctx, op, AssetsPrecompile, data, bt)
 	}
 	// regtoken: A token address choice, D lz choice, E decimals, S oracle info variant
 	extraBuilders["regtoken"] = func(r *Run, ctx sdk.Context, op Op) (*BuiltTx, error) {
@@ -48,7 +48,7 @@ func init() {
 		if err != nil {
 			return nil, err
 		}
-		return bt, r.ethCall(ctx, r.callerFor(op), AssetsPrecompile, data, bt)
+		return bt, r.gatewayCall(ctx, op, AssetsPrecompile, data, bt)
 	}
 	extraBuilders["updtoken"] = func(r *Run, ctx sdk.Context, op Op) (*BuiltTx, error) {
 		bt := &BuiltTx{Op: op, Method: "updateToken"}
@@ -59,7 +59,7 @@ func init() {
 		if err != nil {
 			return nil, err
 		}
-		return bt, r.ethCall(ctx, r.callerFor(op), AssetsPrecompile, data, bt)
+		return bt, r.gatewayCall(ctx, op, AssetsPrecompile, data, bt)
 	}
 }
 
